@@ -15,6 +15,7 @@ CONSTANTS
   Modes = {"entity", "cdata"}
   W <- WFixed
   RootKinds = {"inst", "class", "ipath", "cpath", "prop", "pval", "qual", "qdecl", "meth", "parm"}
+  EmbPaths = FALSE
 INVARIANT NormIdempotent
 INVARIANT ReqAcceptsNorm
 INVARIANT ReqRejects
